@@ -1,29 +1,63 @@
 // K-C12: correspondence harness for include/shark/Data/CVDatasetTools.h.
-// Same line protocol as lean/Driver/C12.lean (every op line is self-contained).
-// argv[1]: uint | real | sparse | blob  (input element type; blob = user struct in std::vector batches).  The RNG-dependent functions are seeded from
-// the op line; what the real code drew is *observed* from the result and printed as obs=[…]
-// (tools/obsfeed.py feeds it to the Lean driver, which checks it against the model's relation).
-// Independent oracle: disjointness / cover / complement / pairing / balance / shape, evaluated on the
-// real folds against the flat std::vector the dataset was built from.
+// Same line protocol as lean/Driver/C12.lean (constructor lines are self-contained, follow-up lines work on the state).
+// argv[1]: uint | real | sparse | blob  (input element type; blob = user struct in std::vector batches)
+// argv[2]: cls | reg                    (label type: unsigned int class labels | RealVector regression labels)
+// Three binaries are built from this file: c12 (class labels), c12reg (-DC12_REG: regression labels) and c12dbg
+// (-UNDEBUG: the SIZE_CHECK / SHARK_ASSERT / RANGE_CHECK assertions of a debug build are active).
+// The RNG-dependent functions are seeded from the op line; what the real code drew is *observed* from the result and
+// printed as obs=[…] (tools/obsfeed.py feeds it to the Lean driver, which checks it against the model's relation).
+// Independent oracle: disjointness / cover / complement / pairing / fold sizes / class balance / batch layout / requested
+// fold / shape / repeatability, evaluated on the real folds against the flat element list of the dataset the folds were
+// built from and against the batches of folds.dataset().
 #include "dscodec.hpp"
 #include <shark/Data/CVDatasetTools.h>
+#include <shark/Data/WeightedDataset.h>
 #include <map>
+#include <type_traits>
 
-template<class I>
+static const unsigned BADL = 4294967295u;
+template<class L> struct LCodec;
+template<> struct LCodec<unsigned int>{
+	static unsigned int enc(unsigned c){ return c; }
+	template<class X> static unsigned dec(X const& x){ return (unsigned)x; }
+};
+template<> struct LCodec<RealVector>{
+	static RealVector enc(unsigned c){ RealVector v(2); v(0) = c; v(1) = c + 0.25; return v; }
+	template<class X> static unsigned dec(X const& x){
+		if(x.size() != 2) return BADL;
+		unsigned c = (unsigned)x(0);
+		if(x(0) != (double)c || x(1) != c + 0.25) return BADL;
+		return c;
+	}
+};
+
+// does CVFolds<W>::training compile, i.e. does W::indexedSubset return something convertible to W?
+template<class W, class = void> struct SubsetKeepsType : std::false_type{};
+template<class W> struct SubsetKeepsType<W, typename std::enable_if<std::is_convertible<
+	decltype(std::declval<W const&>().indexedSubset(std::declval<std::vector<std::size_t> const&>())), W>::value>::type> : std::true_type{};
+
+static const std::size_t NONE = (std::size_t)-1;
+
+template<class I, class L>
 struct H{
-	typedef LabeledData<I, unsigned int> DS;
+	typedef LabeledData<I, L> DS;
+	typedef WeightedLabeledData<I, L> WDS;
+	typedef std::vector<std::size_t> Ix;
 	std::string msg;
 	void fail(std::string const& t){ msg += " !oracle " + t; }
 
+	DS set; bool haveSet; CVFolds<DS> cur, prev; bool haveCur, havePrev;
+	H(): haveSet(false), haveCur(false), havePrev(false){}
+
+	template<class B> static void flatBatch(B const& batch, Flat& f){
+		for(std::size_t i = 0; i != batchSize(batch); ++i){
+			auto e = getBatchElement(batch, i);
+			f.push_back(Elem(Codec<I>::dec(e.input), LCodec<L>::dec(e.label)));
+		}
+	}
 	static Flat flat(DS const& s){
 		Flat f;
-		for(std::size_t b = 0; b != s.numberOfBatches(); ++b){
-			auto const& batch = s.batch(b);
-			for(std::size_t i = 0; i != batchSize(batch); ++i){
-				auto e = getBatchElement(batch, i);
-				f.push_back(Elem(Codec<I>::dec(e.input), e.label));
-			}
-		}
+		for(std::size_t b = 0; b != s.numberOfBatches(); ++b) flatBatch(s.batch(b), f);
 		return f;
 	}
 	static std::string showDS(DS const& s){
@@ -35,44 +69,79 @@ struct H{
 	}
 	static Flat sorted(Flat f){ std::sort(f.begin(), f.end()); return f; }
 
-	std::string showFolds(CVFolds<DS> const& folds, Flat const& orig, Shape const& origShape, std::size_t k, std::size_t bs,
-	                      bool sameSize, bool balanced, std::vector<std::size_t> const* wanted){
+	// what the folds are expected to be
+	struct Expect{
+		Flat base; bool partition; Shape ishape; std::size_t k; std::size_t bs; bool sameSize, balanced;
+		std::map<std::size_t, std::size_t> const* wanted;       // element id -> requested fold
+		Expect(): partition(false), k(NONE), bs(NONE), sameSize(false), balanced(false), wanted(0){}
+	};
+
+	// oracle on index sets and element lists that does not depend on the dataset type
+	void checkFold(std::size_t i, Ix const& v, Ix const& t, std::vector<Flat> const& batches, Flat const& fv, Flat const& ft){
+		std::size_t nb = batches.size();
+		std::vector<char> inV(nb, 0);
+		for(std::size_t b: v){ if(b >= nb){ fail("validation-batch-out-of-range"); return; } inV[b] = 1; }
+		Ix comp; for(std::size_t b = 0; b != nb; ++b) if(!inV[b]) comp.push_back(b);
+		if(t != comp) fail("training-indices-not-complement fold=" + std::to_string(i));
+		Flat ev, et;
+		for(std::size_t b: v) ev.insert(ev.end(), batches[b].begin(), batches[b].end());
+		for(std::size_t b: comp) et.insert(et.end(), batches[b].begin(), batches[b].end());
+		if(fv != ev) fail("validation-elements-differ fold=" + std::to_string(i));
+		if(ft != et) fail("training-elements-not-complement fold=" + std::to_string(i));
+	}
+
+	std::string showFolds(CVFolds<DS> const& folds, Expect const& e){
 		std::ostringstream os;
 		DS const& set = folds.dataset();
-		os << "DS" << showDS(set);
-		if(folds.size() != k) fail("number-of-folds");
+		os << "DS" << showDS(set) << " size=" << folds.size();
+		if(e.k != NONE && folds.size() != e.k) fail("number-of-folds");
+		std::vector<Flat> batches(set.numberOfBatches());
+		for(std::size_t b = 0; b != set.numberOfBatches(); ++b) flatBatch(set.batch(b), batches[b]);
 		Flat all; std::vector<std::size_t> seenBatch(set.numberOfBatches(), 0);
-		std::size_t minSize = (std::size_t)-1, maxSize = 0;
-		std::map<unsigned, std::pair<std::size_t, std::size_t> > classMinMax;
+		std::size_t minSize = NONE, maxSize = 0;
 		std::vector<std::map<unsigned, std::size_t> > perFoldClass(folds.size());
 		for(std::size_t i = 0; i != folds.size(); ++i){
-			std::vector<std::size_t> v = folds.validationFoldIndices(i), t = folds.trainingFoldIndices(i);
+			Ix v = folds.validationFoldIndices(i), t = folds.trainingFoldIndices(i);
 			DS val = folds.validation(i), train = folds.training(i);
 			os << " F" << i << "{v=" << showNats(v) << " t=" << showNats(t) << " val=" << showDS(val) << " train=" << showDS(train) << "}";
 			Flat fv = flat(val), ft = flat(train);
-			for(std::size_t b: v){ if(b >= seenBatch.size()) fail("validation-batch-out-of-range"); else ++seenBatch[b]; }
+			checkFold(i, v, t, batches, fv, ft);
+			// asking again gives the same (the accessors must not change the object)
+			if(folds.trainingFoldIndices(i) != t || folds.validationFoldIndices(i) != v || flat(folds.training(i)) != ft || flat(folds.validation(i)) != fv)
+				fail("repeated-access-differs fold=" + std::to_string(i));
+			for(std::size_t b: v) if(b < seenBatch.size()) ++seenBatch[b];
 			all.insert(all.end(), fv.begin(), fv.end());
-			// training = complement of validation: together they are exactly the original elements with their labels
-			Flat both = fv; both.insert(both.end(), ft.begin(), ft.end());
-			if(sorted(both) != sorted(orig)) fail("training-is-not-complement fold=" + std::to_string(i));
-			std::vector<std::size_t> vt = v; vt.insert(vt.end(), t.begin(), t.end()); std::sort(vt.begin(), vt.end());
-			for(std::size_t b = 0; b != vt.size(); ++b) if(vt[b] != b){ fail("fold-indices-not-a-partition fold=" + std::to_string(i)); break; }
-			if(vt.size() != set.numberOfBatches()) fail("fold-indices-count fold=" + std::to_string(i));
+			if(e.partition){
+				Flat both = fv; both.insert(both.end(), ft.begin(), ft.end());
+				if(sorted(both) != sorted(e.base)) fail("training-is-not-complement fold=" + std::to_string(i));
+			}
 			minSize = std::min(minSize, fv.size()); maxSize = std::max(maxSize, fv.size());
-			for(Elem const& e: fv) perFoldClass[i][e.second]++;
-			if(bs) for(std::size_t s: val.getPartitioning()) if(s > bs) fail("batch-larger-than-maximum");
-			if(val.inputShape() != origShape || train.inputShape() != origShape) fail("fold-shape-lost fold=" + std::to_string(i));
-			if(wanted) for(Elem const& e: fv) if((*wanted)[e.first] != i) fail("element-in-wrong-fold id=" + std::to_string(e.first));
+			for(Elem const& x: fv) perFoldClass[i][x.second]++;
+			if(e.bs != NONE){
+				Ix part = val.getPartitioning();
+				std::size_t want = fv.empty() ? 0 : (e.bs == 0 ? 1 : (fv.size() + e.bs - 1) / e.bs);
+				if(part.size() != want) fail("fold-batch-count fold=" + std::to_string(i));
+				std::size_t lo = NONE, hi = 0;
+				for(std::size_t s: part){ lo = std::min(lo, s); hi = std::max(hi, s); if(e.bs && s > e.bs) fail("batch-larger-than-maximum"); if(s == 0) fail("empty-batch"); }
+				if(!part.empty() && hi > lo + 1) fail("fold-batches-unbalanced fold=" + std::to_string(i));
+			}
+			if(val.inputShape() != e.ishape || train.inputShape() != e.ishape) fail("fold-shape-lost fold=" + std::to_string(i));
+			if(val.labelShape() != set.labelShape() || train.labelShape() != set.labelShape()) fail("fold-label-shape-lost fold=" + std::to_string(i));
+			if(e.wanted) for(Elem const& x: fv){ auto w = e.wanted->find(x.first); if(w == e.wanted->end() || w->second != i) fail("element-in-wrong-fold id=" + std::to_string(x.first)); }
 		}
-		for(std::size_t b = 0; b != seenBatch.size(); ++b) if(seenBatch[b] != 1){ fail("validation-parts-not-disjoint-cover batch=" + std::to_string(b)); break; }
-		if(sorted(all) != sorted(orig)) fail("validation-union-differs-from-original");
-		if(sorted(flat(set)) != sorted(orig)) fail("reorganised-dataset-differs-from-original");
-		if(set.inputShape() != origShape) fail("dataset-shape-lost");
-		if((sameSize || balanced) && maxSize > minSize + 1) fail("fold-sizes-differ-by-more-than-one");
-		if(balanced){
-			std::map<unsigned, bool> classes; for(Elem const& e: orig) classes[e.second] = true;
+		if(set.inputShape() != e.ishape) fail("dataset-shape-lost");
+		for(Elem const& x: all) if(x.first == BAD || x.second == BADL){ fail("element-corrupted"); break; }
+		if(e.partition){
+			for(std::size_t b = 0; b != seenBatch.size(); ++b) if(seenBatch[b] != 1){ fail("validation-parts-not-disjoint-cover batch=" + std::to_string(b)); break; }
+			if(sorted(all) != sorted(e.base)) fail("validation-union-differs-from-original");
+			if(sorted(flat(set)) != sorted(e.base)) fail("reorganised-dataset-differs-from-original");
+			if(e.wanted && all.size() != e.wanted->size()) fail("requested-elements-missing");
+		}
+		if((e.sameSize || e.balanced) && folds.size() && maxSize > minSize + 1) fail("fold-sizes-differ-by-more-than-one");
+		if(e.balanced){
+			std::map<unsigned, bool> classes; for(Elem const& x: e.base) classes[x.second] = true;
 			for(auto const& c: classes){
-				std::size_t lo = (std::size_t)-1, hi = 0;
+				std::size_t lo = NONE, hi = 0;
 				for(std::size_t i = 0; i != folds.size(); ++i){
 					std::size_t n = perFoldClass[i].count(c.first) ? perFoldClass[i][c.first] : 0;
 					lo = std::min(lo, n); hi = std::max(hi, n);
@@ -80,83 +149,248 @@ struct H{
 				if(hi > lo + 1) fail("class-balance class=" + std::to_string(c.first));
 			}
 		}
-		for(Elem const& e: all) if(e.first == BAD){ fail("element-corrupted"); break; }
 		return os.str();
 	}
 
-	// fold of every original element, read off the result (ids are the original positions)
-	static std::vector<std::size_t> foldOf(CVFolds<DS> const& folds, std::size_t n){
-		std::vector<std::size_t> r(n, 0);
-		for(std::size_t i = 0; i != folds.size(); ++i) for(Elem const& e: flat(folds.validation(i))) if(e.first < n) r[e.first] = i;
+	// fold of every element id, read off the result
+	static std::map<std::size_t, std::size_t> foldOf(CVFolds<DS> const& folds){
+		std::map<std::size_t, std::size_t> r;
+		for(std::size_t i = 0; i != folds.size(); ++i) for(Elem const& x: flat(folds.validation(i))) r[x.first] = i;
 		return r;
 	}
 
-	std::string exec(std::string const& op, std::vector<std::size_t> const& a){
-		if(a.size() < 4) return "undefined";
-		std::size_t k = a[0], bs = a[1], m0 = a[2], n = a[3];
-		bool rng = (op == "iid" || op == "samesize" || op == "balanced" || op == "batch");
-		std::size_t off = rng ? 5 : 4;
-		if(n == 0 || a.size() < off + n) return "undefined";
-		if(rng && k == 0) return "undefined";
-		if(op != "batch" && bs == 0) return "undefined";
-		std::vector<I> in; std::vector<unsigned int> lab; Flat orig;
-		for(std::size_t i = 0; i != n; ++i){
-			in.push_back(Codec<I>::enc(i)); lab.push_back((unsigned int)a[off + i]); orig.push_back(Elem(i, (unsigned int)a[off + i]));
-		}
-		DS set = createLabeledDataFromRange(in, lab, m0);
-		Shape origShape = set.inputShape();
-		if(rng) random::globalRng.seed((unsigned)a[4]);
+	// construction function number fn on s (0 indexed, 1 fully, 2 iid, 3 samesize, 4 balanced, 5 batch); idx/ri given or computed from (a, b)
+	std::string construct(std::size_t fn, DS& s, std::size_t k, std::size_t bs, std::size_t seed, std::size_t a, std::size_t b,
+	                      Ix const* idxGiven, RecreationIndices const* riGiven, CVFolds<DS>& out){
+		Flat base = flat(s);
+		std::size_t n = base.size();
+		Expect e; e.base = base; e.partition = true; e.ishape = s.inputShape(); e.k = k; e.bs = bs;
+		std::map<std::size_t, std::size_t> wanted;
 		std::ostringstream os;
-		if(op == "indexed"){
-			if(a.size() != 4 + 2 * n) return "undefined";
-			std::vector<std::size_t> idx(a.begin() + 4 + n, a.end());
-			for(std::size_t x: idx) if(x >= k) return "undefined";
-			CVFolds<DS> f = createCVIndexed(set, k, idx, bs);
-			os << showFolds(f, orig, origShape, k, bs, false, false, &idx);
-		}else if(op == "fully"){
-			if(a.size() != 4 + 3 * n) return "undefined";
+		if(fn >= 2) random::globalRng.seed((unsigned)seed);
+		if(fn == 0){
+			Ix idx; if(idxGiven) idx = *idxGiven; else for(std::size_t j = 0; j != n; ++j) idx.push_back((a * j + b) % k);
+			for(std::size_t j = 0; j != n; ++j) wanted[base[j].first] = idx[j];
+			out = bs == 256 ? createCVIndexed(s, k, idx) : createCVIndexed(s, k, idx, bs);      // 256: the default argument
+			e.wanted = &wanted;
+		}else if(fn == 1){
 			RecreationIndices ri;
-			ri.first.assign(a.begin() + 4 + n, a.begin() + 4 + 2 * n); ri.second.assign(a.begin() + 4 + 2 * n, a.end());
-			for(std::size_t x: ri.first) if(x >= n) return "undefined";
-			for(std::size_t x: ri.second) if(x >= k) return "undefined";
-			bool isPerm = true; { std::vector<std::size_t> s = ri.first; std::sort(s.begin(), s.end()); for(std::size_t i = 0; i != n; ++i) if(s[i] != i) isPerm = false; }
-			CVFolds<DS> f = createCVFullyIndexed(set, k, ri, bs);
-			if(isPerm){
-				std::vector<std::size_t> wanted(n); for(std::size_t j = 0; j != n; ++j) wanted[ri.first[j]] = ri.second[j];
-				os << showFolds(f, orig, origShape, k, bs, false, false, &wanted);
-			}else{  // order vector with repetitions: a gather, not a partition of the original — compare with the gathered multiset
-				Flat g; for(std::size_t j = 0; j != n; ++j) g.push_back(orig[ri.first[j]]);
-				os << showFolds(f, g, origShape, k, bs, false, false, 0);
-			}
-		}else if(op == "iid"){
-			CVFolds<DS> f = createCVIID(set, k, bs);
-			std::vector<std::size_t> drawn = foldOf(f, n);
-			os << "obs=" << showNats(drawn) << " " << showFolds(f, orig, origShape, k, bs, false, false, &drawn);
-		}else if(op == "samesize"){
-			CVFolds<DS> f = createCVSameSize(set, k, bs);
-			Flat after = flat(f.dataset());
-			std::vector<std::size_t> p; for(Elem const& e: after) p.push_back(e.first);
-			os << "obs=" << showNats(p) << " " << showFolds(f, orig, origShape, k, bs, true, false, 0);
-		}else if(op == "balanced"){
+			if(riGiven) ri = *riGiven; else for(std::size_t j = 0; j != n; ++j){ ri.first.push_back((j + a) % n); ri.second.push_back((a * j + b) % k); }
+			bool isPerm = true; { Ix t = ri.first; std::sort(t.begin(), t.end()); for(std::size_t i = 0; i != n; ++i) if(t[i] != i) isPerm = false; }
+			if(isPerm){ for(std::size_t j = 0; j != n; ++j) wanted[base[ri.first[j]].first] = ri.second[j]; e.wanted = &wanted; }
+			else{ Flat g; for(std::size_t j = 0; j != n; ++j) g.push_back(base[ri.first[j]]); e.base = g; }   // a gather, not a partition of the original
+			out = bs == 256 ? createCVFullyIndexed(s, k, ri) : createCVFullyIndexed(s, k, ri, bs);
+		}else if(fn == 2){
+			out = bs == 256 ? createCVIID(s, k) : createCVIID(s, k, bs);
+			wanted = foldOf(out);
+			Ix drawn; for(std::size_t j = 0; j != n; ++j) drawn.push_back(wanted.count(base[j].first) ? wanted[base[j].first] : 0);
+			os << "obs=" << showNats(drawn) << " ";
+			e.wanted = &wanted;
+		}else if(fn == 3){
+			out = bs == 256 ? createCVSameSize(s, k) : createCVSameSize(s, k, bs);
+			std::map<std::size_t, std::size_t> posOf; for(std::size_t j = 0; j != n; ++j) posOf[base[j].first] = j;
+			Ix p; for(Elem const& x: flat(out.dataset())) p.push_back(posOf.count(x.first) ? posOf[x.first] : n);
+			os << "obs=" << showNats(p) << " ";
+			e.sameSize = true;
+		}else if(fn == 4){
 			RecreationIndices ri;
-			CVFolds<DS> f = createCVSameSizeBalanced(set, k, bs, &ri);
-			os << "obs=" << showNats(ri.first) << " rec=" << showNats(ri.first) << "/" << showNats(ri.second) << " "
-			   << showFolds(f, orig, origShape, k, bs, true, true, 0);
+			out = balanced(s, k, bs, &ri, base);
+			os << "obs=" << showNats(ri.first) << " rec=" << showNats(ri.first) << "/" << showNats(ri.second) << " ";
+			e.sameSize = true; e.balanced = true;
 			// the recreation indices must describe the folds that were built
-			std::vector<std::size_t> got = foldOf(f, n);
+			std::map<std::size_t, std::size_t> got = foldOf(out);
 			if(ri.first.size() != n || ri.second.size() != n) fail("recreation-indices-size");
-			else for(std::size_t j = 0; j != n; ++j) if(ri.first[j] >= n || got[ri.first[j]] != ri.second[j]){ fail("recreation-indices-wrong"); break; }
-		}else if(op == "batch"){
-			DS const& cset = set;
-			CVFolds<DS> f = createCVBatch(cset, k);
-			std::vector<std::size_t> p;
-			for(std::size_t i = 0; i != f.size(); ++i) for(std::size_t b: f.validationFoldIndices(i)) p.push_back(b);
-			os << "obs=" << showNats(p) << " " << showFolds(f, orig, origShape, k, 0, false, false, 0);
-			std::size_t lo = (std::size_t)-1, hi = 0;
-			for(std::size_t i = 0; i != f.size(); ++i){ lo = std::min(lo, f.validationFoldIndices(i).size()); hi = std::max(hi, f.validationFoldIndices(i).size()); }
+			else for(std::size_t j = 0; j != n; ++j) if(ri.first[j] >= n || got[base[ri.first[j]].first] != ri.second[j]){ fail("recreation-indices-wrong"); break; }
+		}else{
+			DS const& cs = s;
+			out = createCVBatch(cs, k);
+			Ix p; for(std::size_t i = 0; i != out.size(); ++i) for(std::size_t x: out.validationFoldIndices(i)) p.push_back(x);
+			os << "obs=" << showNats(p) << " ";
+			e.bs = NONE;
+			std::size_t lo = NONE, hi = 0;
+			for(std::size_t i = 0; i != out.size(); ++i){ lo = std::min(lo, out.validationFoldIndices(i).size()); hi = std::max(hi, out.validationFoldIndices(i).size()); }
 			if(hi > lo + 1) fail("batch-fold-sizes-differ-by-more-than-one");
-		}else return "undefined";
-		return "ok " + os.str();
+			if(flat(s) != base || s.getPartitioning() != out.dataset().getPartitioning()) fail("createCVBatch-changed-the-dataset");
+		}
+		os << showFolds(out, e);
+		return os.str();
+	}
+	// class labels: the public function; other labels: detail:: with a membership vector
+	static CVFolds<LabeledData<I, unsigned int> > balancedImpl(LabeledData<I, unsigned int>& s, std::size_t k, std::size_t bs, RecreationIndices* ri, Flat const&){
+		return createCVSameSizeBalanced(s, k, bs, ri);
+	}
+	template<class LL> static CVFolds<LabeledData<I, LL> > balancedImpl(LabeledData<I, LL>& s, std::size_t k, std::size_t bs, RecreationIndices* ri, Flat const& base){
+		unsigned nc = 0; for(Elem const& x: base) nc = std::max(nc, x.second + 1);
+		std::vector<std::vector<std::size_t> > members(nc);
+		for(std::size_t j = 0; j != base.size(); ++j) members[base[j].second].push_back(j);
+		return detail::createCVSameSizeBalanced(s, k, members, bs, ri);
+	}
+	static CVFolds<DS> balanced(DS& s, std::size_t k, std::size_t bs, RecreationIndices* ri, Flat const& base){ return balancedImpl(s, k, bs, ri, base); }
+
+	static bool parseSets(std::vector<std::size_t> const& a, std::vector<Ix>& sets){
+		if(a.empty()) return false;
+		std::size_t m = a[0], p = 1;
+		for(std::size_t i = 0; i != m; ++i){
+			if(p >= a.size()) return false;
+			std::size_t len = a[p++];
+			if(a.size() - p < len) return false;
+			sets.push_back(Ix(a.begin() + p, a.begin() + p + len)); p += len;
+		}
+		return p == a.size();
+	}
+	static bool isPartition(std::vector<Ix> const& sets, std::size_t nb){
+		std::vector<std::size_t> seen(nb, 0);
+		for(Ix const& s: sets) for(std::size_t b: s) if(b < nb) ++seen[b];
+		for(std::size_t c: seen) if(c != 1) return false;
+		return true;
+	}
+
+	// the two CVFolds constructors on a weighted dataset
+	// CVFolds<WDS>::training(i) / validation(i) are `m_dataset.indexedSubset(…FoldIndices(i))`; they do not compile as long as
+	// BaseWeightedDataset::indexedSubset returns the base class (finding F-C12-1): then their body is executed here instead
+	template<class FoldsT> static typename FoldsT::DatasetType wpart(FoldsT const& f, std::size_t i, bool train, Ix const&, std::true_type){
+		return train ? f.training(i) : f.validation(i);
+	}
+	template<class FoldsT> static decltype(std::declval<WDS const&>().indexedSubset(std::declval<Ix const&>()))
+	wpart(FoldsT const& f, std::size_t, bool, Ix const& ix, std::false_type){ return f.dataset().indexedSubset(ix); }
+	std::string weighted(bool fromStarts, Ix const& starts, std::vector<Ix> const& sets){
+		DS const& d = cur.dataset();
+		WDS w(d, 1.0);
+		for(std::size_t b = 0; b != d.numberOfBatches(); ++b){
+			Flat f; flatBatch(d.batch(b), f);
+			for(std::size_t i = 0; i != f.size(); ++i) w.weights().batch(b)(i) = f[i].first + 0.5;
+		}
+		CVFolds<WDS> folds = fromStarts ? CVFolds<WDS>(w, starts) : CVFolds<WDS>(w, sets);
+		std::ostringstream os;
+		os << "DS" << showDS(folds.dataset().data()) << " size=" << folds.size();
+		std::vector<Flat> batches(d.numberOfBatches());
+		for(std::size_t b = 0; b != d.numberOfBatches(); ++b) flatBatch(d.batch(b), batches[b]);
+		for(std::size_t i = 0; i != folds.size(); ++i){
+			Ix v = folds.validationFoldIndices(i), t = folds.trainingFoldIndices(i);
+			auto val = wpart(folds, i, false, v, SubsetKeepsType<WDS>());
+			auto train = wpart(folds, i, true, t, SubsetKeepsType<WDS>());
+			os << " F" << i << "{v=" << showNats(v) << " t=" << showNats(t) << " val=" << showDS(val.data()) << " train=" << showDS(train.data()) << "}";
+			Flat fv = flat(val.data()), ft = flat(train.data());
+			checkFold(i, v, t, batches, fv, ft);
+			if(val.data().inputShape() != d.inputShape()) fail("fold-shape-lost fold=" + std::to_string(i));
+			// every element still carries its weight
+			for(int side = 0; side != 2; ++side){
+				auto const& part = side ? train : val;
+				Flat const& fl = side ? ft : fv;
+				std::size_t p = 0;
+				for(std::size_t b = 0; b != part.numberOfBatches(); ++b){
+					auto const& wb = part.weights().batch(b);
+					if(wb.size() != batchSize(part.data().batch(b))){ fail("weight-batch-size"); break; }
+					for(std::size_t j = 0; j != wb.size(); ++j, ++p) if(p >= fl.size() || wb(j) != fl[p].first + 0.5){ fail("weight-not-with-its-element fold=" + std::to_string(i)); break; }
+				}
+			}
+		}
+		return os.str();
+	}
+
+	std::string exec(std::string const& op, std::vector<std::size_t> const& a){
+		bool ctor = (op == "indexed" || op == "fully" || op == "iid" || op == "samesize" || op == "balanced" || op == "batch");
+		if(ctor){
+			if(a.size() < 4) return "undefined";
+			std::size_t k = a[0], bs = a[1], m0 = a[2], n = a[3];
+			bool rng = (op != "indexed" && op != "fully");
+			std::size_t off = rng ? 5 : 4;
+			if(n == 0 || a.size() < off + n) return "undefined";
+			if(k == 0) return "undefined";
+			if(rng && a.size() != off + n) return "undefined";
+			std::vector<I> in; std::vector<L> lab;
+			for(std::size_t i = 0; i != n; ++i){ in.push_back(Codec<I>::enc(i)); lab.push_back(LCodec<L>::enc((unsigned int)a[off + i])); }
+			DS s = createLabeledDataFromRange(in, lab, m0);
+			CVFolds<DS> f; std::string out;
+			if(op == "indexed"){
+				if(a.size() != 4 + 2 * n) return "undefined";
+				Ix idx(a.begin() + 4 + n, a.end());
+				for(std::size_t x: idx) if(x >= k) return "undefined";
+				out = construct(0, s, k, bs, 0, 0, 0, &idx, 0, f);
+			}else if(op == "fully"){
+				if(a.size() != 4 + 3 * n) return "undefined";
+				RecreationIndices ri;
+				ri.first.assign(a.begin() + 4 + n, a.begin() + 4 + 2 * n); ri.second.assign(a.begin() + 4 + 2 * n, a.end());
+				for(std::size_t x: ri.first) if(x >= n) return "undefined";
+				for(std::size_t x: ri.second) if(x >= k) return "undefined";
+				out = construct(1, s, k, bs, 0, 0, 0, 0, &ri, f);
+			}else{
+				std::size_t fn = op == "iid" ? 2 : op == "samesize" ? 3 : op == "balanced" ? 4 : 5;
+				out = construct(fn, s, k, fn == 5 ? 0 : bs, a[4], 0, 0, 0, 0, f);
+			}
+			prev = cur; havePrev = haveCur; cur = f; haveCur = true; set = s; haveSet = true;
+			return "ok " + out;
+		}
+		Expect e;
+		if(op == "new"){
+			if(!a.empty()) return "undefined";
+			set = DS(); cur = CVFolds<DS>(); prev = CVFolds<DS>(); haveSet = haveCur = havePrev = false;
+			return "ok";
+		}
+		if(op == "show" || op == "copy"){
+			if(!a.empty() || !haveCur) return "undefined";
+			if(op == "copy"){ CVFolds<DS> c(cur); cur = CVFolds<DS>(); cur = c; }
+			e.ishape = cur.dataset().inputShape();
+			return "ok " + showFolds(cur, e);
+		}
+		if(op == "prev"){
+			if(!a.empty() || !havePrev) return "undefined";
+			e.ishape = prev.dataset().inputShape();
+			return "ok " + showFolds(prev, e);
+		}
+		if(op == "starts" || op == "wstarts"){
+			if(!haveCur || a.empty()) return "undefined";
+			std::size_t nb = cur.dataset().numberOfBatches();
+			for(std::size_t i = 0; i != a.size(); ++i) if(a[i] > nb || (i && a[i] < a[i - 1])) return "undefined";
+			if(op == "wstarts") return "ok " + weighted(true, a, std::vector<Ix>());
+			CVFolds<DS> f(cur.dataset(), a);
+			e.base = flat(cur.dataset()); e.partition = (a[0] == 0); e.ishape = cur.dataset().inputShape(); e.k = a.size();
+			std::string out = showFolds(f, e);
+			prev = cur; havePrev = true; cur = f;
+			return "ok " + out;
+		}
+		if(op == "sets" || op == "wsets"){
+			std::vector<Ix> sets;
+			if(!haveCur || !parseSets(a, sets)) return "undefined";
+			std::size_t nb = cur.dataset().numberOfBatches();
+			for(Ix const& s: sets) for(std::size_t b: s) if(b >= nb) return "undefined";
+			if(op == "wsets") return "ok " + weighted(false, Ix(), sets);
+			CVFolds<DS> f(cur.dataset(), sets);
+			e.base = flat(cur.dataset()); e.partition = isPartition(sets, nb); e.ishape = cur.dataset().inputShape(); e.k = sets.size();
+			std::string out = showFolds(f, e);
+			prev = cur; havePrev = true; cur = f;
+			return "ok " + out;
+		}
+		if(op == "debug") return a.empty() ? "ok" : "undefined";      // marks cases for the binary built without NDEBUG
+		if(op == "wprobe"){
+			if(!SubsetKeepsType<WDS>::value) fail("weighted-folds-training-does-not-compile");
+			return "ok";
+		}
+		if(op == "again" || op == "nest"){
+			std::size_t o = op == "nest" ? 2 : 0;
+			if(a.size() != 6 + o) return "undefined";
+			DS s;
+			if(op == "nest"){
+				if(!haveCur || a[1] >= cur.size()) return "undefined";
+				s = a[0] == 0 ? cur.training(a[1]) : cur.validation(a[1]);
+			}else{
+				if(!haveSet) return "undefined";
+				s = set;
+			}
+			std::size_t fn = a[o], k = a[o + 1], bs = a[o + 2], seed = a[o + 3], x = a[o + 4], y = a[o + 5];
+			if(s.numberOfElements() == 0 || k == 0 || fn > 5) return "undefined";
+			{	// a part with a batch listed twice holds elements twice: the oracle identifies elements by their id, so such parts are skipped
+				Flat fl = flat(s); std::vector<std::size_t> ids; for(Elem const& x: fl) ids.push_back(x.first);
+				std::sort(ids.begin(), ids.end());
+				if(std::adjacent_find(ids.begin(), ids.end()) != ids.end()) return "undefined";
+			}
+			s.makeIndependent();              // documented precondition of repartitioning a subset (dataset_subsets tutorial)
+			CVFolds<DS> f;
+			std::string out = construct(fn, s, k, fn == 5 ? 0 : bs, seed, x, y, 0, 0, f);
+			prev = cur; havePrev = haveCur; cur = f; haveCur = true; set = s; haveSet = true;
+			return "ok " + out;
+		}
+		return "undefined";
 	}
 
 	int run(){
@@ -177,12 +411,23 @@ struct H{
 	}
 };
 
+template<class L> int runL(std::string const& ty){
+	if(ty == "uint"){ H<unsigned int, L> h; return h.run(); }
+	if(ty == "real"){ H<RealVector, L> h; return h.run(); }
+	if(ty == "sparse"){ H<CompressedRealVector, L> h; return h.run(); }
+	if(ty == "blob"){ H<Blob, L> h; return h.run(); }
+	std::cerr << "unknown element type " << ty << std::endl;
+	return 2;
+}
+
 int main(int argc, char** argv){
 	std::string ty = argc > 1 ? argv[1] : "uint";
-	if(ty == "uint"){ H<unsigned int> h; return h.run(); }
-	if(ty == "real"){ H<RealVector> h; return h.run(); }
-	if(ty == "sparse"){ H<CompressedRealVector> h; return h.run(); }
-	if(ty == "blob"){ H<Blob> h; return h.run(); }
-	std::cerr << "unknown element type " << ty << std::endl;
+	std::string lt = argc > 2 ? argv[2] : "cls";
+#ifdef C12_REG
+	if(lt == "reg") return runL<RealVector>(ty);
+#else
+	if(lt == "cls") return runL<unsigned int>(ty);
+#endif
+	std::cerr << "label type " << lt << " not in this binary" << std::endl;
 	return 2;
 }
